@@ -181,6 +181,12 @@ func strftime(t time.Time, cfmt string) string {
 					switch c {
 					case 'w':
 						sc.AppendString(fmt.Sprint(int(t.Weekday())))
+					case 'j':
+						sc.AppendString(fmt.Sprintf("%03d", t.YearDay()))
+					case 'U': // week of the year, the first Sunday starts week 1
+						sc.AppendString(fmt.Sprintf("%02d", (t.YearDay()-1+7-int(t.Weekday()))/7))
+					case 'W': // week of the year, the first Monday starts week 1
+						sc.AppendString(fmt.Sprintf("%02d", (t.YearDay()-1+7-(int(t.Weekday())+6)%7)/7))
 					default:
 						sc.AppendChar('%')
 						sc.AppendChar(c)
